@@ -111,12 +111,16 @@ class App(AV):
 
 
 class ListV(AV):
-    __slots__ = ("items", "kind")
+    """Sequence / set value.  ``origin`` = (heap slot, key) when the value was read out of a dictionary that lives in the heap (`queues = cls.notify[topic]`):
+    mutating it through the local mutates the element of that dictionary.  Not part of equality."""
+
+    __slots__ = ("items", "kind", "origin")
     __hash__ = AV.__hash__
 
-    def __init__(self, items, kind="list"):
+    def __init__(self, items, kind="list", origin=None):
         self.items = tuple(items)
         self.kind = kind
+        self.origin = origin
 
     def __eq__(self, o):
         return isinstance(o, ListV) and o.items == self.items and o.kind == self.kind
@@ -1394,6 +1398,8 @@ class Interp:
         if isinstance(base, DictV):
             v = base.get(idx)
             if v is not None:
+                if isinstance(v, ListV) and base.origin is not None and v.kind in ("list", "set"):
+                    v = ListV(v.items, v.kind, (base.origin, idx))  # the element itself, not a copy
                 return v
         if isinstance(base, Const) and isinstance(idx, Const):
             try:
@@ -2027,6 +2033,8 @@ class Interp:
                 return [(cfg, ListV((), fname))]
             if isinstance(args[0], ListV):
                 return [(cfg, ListV(args[0].items, fname))]
+            if isinstance(args[0], DictV) and not any(isinstance(k, App) for k, _ in args[0].items):
+                return [(cfg, ListV([k for k, _ in args[0].items], fname))]  # iterating a dictionary gives its keys
             return None
         if fname == "dict" and not args:
             return [(cfg, DictV([(Const(k), v) for k, v in kwargs.items()]))]
@@ -2213,6 +2221,13 @@ class Interp:
             if org is not None and isinstance(newv, DictV):
                 newv = DictV(newv.items, org)
                 c = c.hset(org, DictV(newv.items))
+            if org is not None and isinstance(newv, ListV) and isinstance(org, tuple):
+                # an element of a heap dictionary held in a local: the dictionary's element changes with it
+                slot, key = org
+                holder = c.heap.get(slot)
+                if isinstance(holder, DictV) and holder.get(key) is not None:
+                    c = c.hset(slot, DictV(holder.set(key, ListV(newv.items, newv.kind)).items))
+                newv = ListV(newv.items, newv.kind, org)
             if recv_name is not None and recv_name in cfg.env:
                 c = c.set(recv_name, newv)
             elif isinstance(node.func, ast.Attribute) and isinstance(node.func.value, ast.Subscript):
@@ -2281,6 +2296,8 @@ class Interp:
             if meth == "get" and args and isinstance(args[0], (Const, ClassV)):
                 v = base.get(args[0])
                 if v is not None:
+                    if isinstance(v, ListV) and base.origin is not None and v.kind in ("list", "set"):
+                        v = ListV(v.items, v.kind, (base.origin, args[0]))  # the element itself, not a copy
                     return [(cfg, v)]
                 if all(isinstance(k, (Const, ClassV)) for k, _ in base.items):
                     return [(cfg, args[1] if len(args) > 1 else NONE)]
